@@ -331,21 +331,97 @@ def schedule(jobs, pool, harness_dir, logdir):
     return results
 
 
+
+# ----------------------------------------------------------------------------- focus re-run
+def _scan_macro_end(src, i):
+    """src[i] is the '(' of `assert!(`; returns index just past the matching ')' (string / char literals skipped)."""
+    depth = 0
+    n = len(src)
+    while i < n:
+        ch = src[i]
+        if ch == '"':
+            i += 1
+            while i < n and src[i] != '"':
+                i += 2 if src[i] == '\\' else 1
+        elif ch == "'" and i + 2 < n and (src[i + 2] == "'" or (src[i + 1] == '\\' and "'" in src[i + 2:i + 6])):
+            i = src.index("'", i + 2)
+        elif ch == '/' and src[i:i + 2] == '//':
+            i = src.index('\n', i)
+        elif ch in '([{':
+            depth += 1
+        elif ch in ')]}':
+            depth -= 1
+            if depth == 0:
+                return i + 1
+        i += 1
+    return None
+
+
+def strip_foreign_assertions(src, prop):
+    """Remove every `assert!(cond, "[Cxx,...] msg");` whose tag list does not contain prop (a failing `assert!` ends
+    the path like a panic, so obligations of prop behind a failing obligation of another property would stay undecided)."""
+    out = []
+    pos = 0
+    removed = 0
+    for m in re.finditer(r'\bassert!\(', src):
+        if m.start() < pos:
+            continue
+        end = _scan_macro_end(src, m.end() - 1)
+        if end is None:
+            continue
+        body = src[m.end():end - 1]
+        lit = re.search(r',\s*"((?:[^"\\]|\\.)*)"\s*,?\s*$', body, re.S)
+        if not lit:
+            continue
+        tg = tags_of(lit.group(1))
+        if not tg or prop in tg:
+            continue
+        stop = end
+        k = end
+        while k < len(src) and src[k] in ' \t':
+            k += 1
+        if k < len(src) and src[k] == ';':
+            stop = k + 1
+        out.append(src[pos:m.start()])
+        out.append('{ /* obligation of %s removed for the focus re-run */ }' % ','.join(tg))
+        pos = stop
+        removed += 1
+    out.append(src[pos:])
+    return ''.join(out), removed
+
+
+def focus_snapshot(hsnap, prop, scratch):
+    d = os.path.join(scratch, 'harness-focus-' + prop)
+    if os.path.isdir(d):
+        return d
+    shutil.copytree(hsnap, d)
+    for f in glob.glob(os.path.join(d, '*_h.rs')):
+        t, n = strip_foreign_assertions(open(f).read(), prop)
+        if n:
+            with open(f, 'w') as fh:
+                fh.write(t)
+    return d
+
+
+def in_harness_code(c):
+    return bool(re.search(r'_h\.rs|verif_harness', c.get('loc', '')))
+
 # ----------------------------------------------------------------------------- replay
-def make_replay(h, failing_descs, scratch, pool, logdir):
+def make_replay(h, failing_descs, scratch, pool, logdir, hdir=None):
     """Ask Kani for a concrete-playback unit test of the failing harness, run it natively against the
     real containers (features: verif-hooks only) in dev and release profile.
     Returns (reproduced: bool|None, replay_path, detail)."""
+    hdir = hdir or ACTIVE['hdir']
     tdir = pool.get()
     try:
         cmd = ['cargo', 'kani', '--target-dir', tdir, '--features', FEATURES_VERIFY] + KANI_FLAGS + \
               ['-Z', 'concrete-playback', '--concrete-playback=print', '--exact', '--harness', full_name(h)]
         if h.get('uws'):
-            d, _ = resolve_unwindset(h, tdir, ACTIVE['hdir'], logdir)
+            d, _ = resolve_unwindset(h, tdir, hdir, logdir)
             if d:
                 cmd += ['--cbmc-args', '--unwindset', ','.join('%s:%d' % kv for kv in sorted(d.items()))]
         lp = os.path.join(logdir, h['name'] + '.playback-gen.log')
-        st, _, _ = run_limited(cmd, REPO, env_for(ACTIVE['hdir']), lp, h.get('timeout', 900) * 2, MEM_CLASS[h.get('mem', 'S')] * 1.5)
+        st, _, _ = run_limited(cmd, REPO, env_for(hdir), lp, h.get('timeout', 900) * 2, MEM_CLASS[h.get('mem', 'S')] * 1.5)
         text = open(lp, errors='replace').read()
     finally:
         pool.put(tdir)
@@ -362,17 +438,17 @@ def make_replay(h, failing_descs, scratch, pool, logdir):
             seen.add(key)
             uniq.append(b)
     test_src = '\n'.join(uniq[:6])
-    return run_replay_source(h['file'], h['name'], test_src, failing_descs, scratch, logdir)
+    return run_replay_source(h['file'], h['name'], test_src, failing_descs, scratch, logdir, hdir=hdir)
 
 
-def run_replay_source(hfile, hname, test_src, failing_descs, scratch, logdir, store=True):
+def run_replay_source(hfile, hname, test_src, failing_descs, scratch, logdir, store=True, hdir=None):
     # scratch copy of the working tree (so that /repo/target is not touched) and of the harness dir with the test appended
     wt = os.path.join(scratch, 'replay-wt-%s' % hname)
     hd = os.path.join(scratch, 'replay-h-%s' % hname)
     shutil.rmtree(wt, ignore_errors=True)
     shutil.rmtree(hd, ignore_errors=True)
     subprocess.run(['rsync', '-a', '--exclude', 'target', '--exclude', '.git', REPO + '/', wt + '/'], check=True)
-    shutil.copytree(ACTIVE['hdir'], hd)
+    shutil.copytree(hdir or ACTIVE['hdir'], hd)
     with open(os.path.join(hd, hfile + '_h.rs'), 'a') as f:
         f.write('\n// ---- concrete playback test appended by bin/check ----\n' + test_src + '\n')
     tname = 'kani_concrete_playback_' + hname
@@ -491,6 +567,7 @@ def check_property(prop, tier, seed, only=None):
         agg = {'symex_s': 0.0, 'solver_s': 0.0, 'sat_calls': 0, 'vccs': 0, 'vccs_remaining': 0, 'max_vars': 0, 'max_clauses': 0, 'steps': 0}
         per_h = []
         to_replay = []
+        focus_list = []
         for h in hs:
             r = byname[h['name']]
             entry = {'harness': h['name'], 'file': h['file'] + '_h.rs', 'status': r['status'], 'wall_s': r.get('wall_s'), 'peak_rss_gb': r.get('peak_gb'),
@@ -509,6 +586,7 @@ def check_property(prop, tier, seed, only=None):
             entry.update(symex_s=round(rec['symex_s'], 1), solver_s=round(rec['solver_s'], 1), checks=len(rec['checks']), verdict=rec['verdict'],
                          sat_vars=rec['vars'], sat_clauses=rec['clauses'])
             fails = []
+            foreign = []
             unwind_fail = False
             for c in rec['checks']:
                 if c['status'] in ('SATISFIED', 'UNSATISFIABLE', 'UNREACHABLE') and '.cover.' in c['id']:
@@ -528,6 +606,7 @@ def check_property(prop, tier, seed, only=None):
                     # tagged with other properties only -> not this property's obligation
                     if tg and prop not in tg and prop != 'DEV':
                         obligations -= 1
+                        foreign.append(c)
                         continue
                     fails.append(c)
                 else:
@@ -535,6 +614,14 @@ def check_property(prop, tier, seed, only=None):
                     if rec['error']:
                         pass
             entry['failed_checks'] = [c['desc'] for c in fails]
+            if foreign and not fails:
+                # A failing `assert!` ends its path, so this property's obligations behind it are undecided on those paths.
+                # Unless the failure is a recorded finding of its own property, decide them in a focus re-run.
+                unk = [c for c in foreign if not any(match_known(known, tp, h['name'], c['desc']) for tp in tags_of(c['desc']))]
+                entry['foreign_failed_checks'] = [c['desc'] for c in foreign]
+                if unk:
+                    focus_list.append((h, unk, entry))
+                    continue
             if rec['error'] and not fails:
                 inconclusive.append((h['name'], rec['error']))
                 continue
@@ -561,12 +648,44 @@ def check_property(prop, tier, seed, only=None):
             if prop == 'DEV':
                 violations.append((h['name'], unknown, None, 'DEV mode: no replay'))
                 continue
-            to_replay.append((h, unknown, entry))
+            to_replay.append((h, unknown, entry, None))
+        # --- focus re-runs: harnesses in which only obligations of *other* properties failed
+        if focus_list:
+            fdir = focus_snapshot(hsnap, prop, scratch)
+            flog = os.path.join(scratch, 'logs-focus')
+            os.makedirs(flog, exist_ok=True)
+            log('  [focus] %d harness(es) fail an obligation of another property; re-running them with only the %s obligations' % (len(focus_list), prop))
+            fres = {r['harness']: r for r in schedule([h for (h, _, _) in focus_list], pool, fdir, flog)}
+            for (h, unk, entry) in focus_list:
+                r2 = fres[h['name']]
+                why = 'an obligation of another property fails first (%s)' % '; '.join(c['desc'] for c in unk)[:300]
+                entry['focus_rerun'] = {'status': r2['status'], 'wall_s': r2.get('wall_s'), 'peak_rss_gb': r2.get('peak_gb')}
+                if r2['status'] != 'done':
+                    inconclusive.append((h['name'], 'focus re-run %s; %s' % (r2.get('detail', '')[:120], why)))
+                    continue
+                f2 = [c for c in r2['rec']['checks'] if c['status'] == 'FAILURE']
+                mine = [c for c in f2 if prop in tags_of(c['desc']) or (not tags_of(c['desc']) and not in_harness_code(c) and not is_unwind_check(c))]
+                other = [c for c in f2 if c not in mine]
+                entry['focus_rerun']['failed_checks'] = [c['desc'] for c in f2]
+                if mine:
+                    descs = [c['desc'] for c in mine]
+                    unknown = [d for d in descs if not match_known(known, prop, h['name'], d)]
+                    for d in descs:
+                        k = match_known(known, prop, h['name'], d)
+                        if k:
+                            known_hits.append((k, h['name'], d))
+                    if unknown:
+                        entry['failed_checks'] = unknown
+                        to_replay.append((h, unknown, entry, fdir))
+                elif other or r2['rec']['error']:
+                    inconclusive.append((h['name'], 'focus re-run: harness code behind the failing obligation cannot be evaluated (%s); %s' % ('; '.join(c['desc'] for c in other)[:200], why)))
+                else:
+                    log('  [focus] %s: every %s obligation holds; %s' % (h['name'], prop, why))
         # replays run in parallel (each is a Kani run with concrete playback + two native builds)
         rlock = threading.Lock()
 
-        def do_replay(h, unknown, entry):
-            ok, path, detail = make_replay(h, unknown, scratch, pool, logdir)
+        def do_replay(h, unknown, entry, hdir):
+            ok, path, detail = make_replay(h, unknown, scratch, pool, logdir, hdir=hdir)
             with rlock:
                 entry['replay'] = {'reproduced': ok, 'path': path, 'detail': detail[:400]}
                 if ok:
@@ -574,8 +693,8 @@ def check_property(prop, tier, seed, only=None):
                 else:
                     inconclusive.append((h['name'], 'counterexample did not reproduce natively (%s): %s' % (detail[:200], '; '.join(unknown)[:300])))
         ths = []
-        for (h, unknown, entry) in to_replay:
-            t = threading.Thread(target=do_replay, args=(h, unknown, entry), daemon=True)
+        for (h, unknown, entry, hdir) in to_replay:
+            t = threading.Thread(target=do_replay, args=(h, unknown, entry, hdir), daemon=True)
             t.start()
             ths.append(t)
             while sum(1 for x in ths if x.is_alive()) >= 6:
